@@ -25,4 +25,9 @@ CHECKS["C01"] = dict(level="exploration", technique="TLC-generated exhaustive la
          "each abstracted result with the exact integer value computed from the 3x3 matrix meaning.",
     note="Trusted: harness abstraction (round to nearest integer after exact power-of-two rescaling, tolerance 1e-9); oracle theorems "
          "(adjugate, Cayley-Hamilton, orthogonality) are checked by TLC on the lattice.", ref="8/C01")
+CHECKS["C04"] = dict(level="exploration", technique="TLC-generated exhaustive order patterns + rank-abstracted observations judged by TLC (SortSpec.tla)",
+    text="All 27 triples over {1,2,3} (every weak order with every placement) x 3 orderings x N=1,2,3 through sortEigenValues, "
+         "SortEigenValues, SortEigenVectors, fses::sort, and the same tied spectra through computeEigenValues/Vectors(o) of the 8 "
+         "solvers; TLC judges sortedness, multiset preservation and that columns travel with their values.",
+    note="Exhaustive over order patterns (the property depends only on comparisons). Solver accuracy is out of scope here (C03).", ref="8/C04")
 NOT_APPLICABLE = {}
